@@ -41,3 +41,8 @@ PROP = dict(
             dict(kind="tlc", name="DecisionCache-bridge", module="DecisionCache", cfg={"quick": None, "thorough": "MC_DecisionCache_bridge.cfg"}, workers=8, timeout=540),
             dict(kind="tlc", name="DecisionCache-full", module="DecisionCache", cfg={"quick": None, "thorough": "MC_DecisionCache_full.cfg"}, workers=8, timeout=540)],
 )
+
+# coverage extension CX2 (lib/ext/CX2.py, DESIGN.md section 0.5): the interning table the kept record's reason is read back from
+# (KeptReasons.tla: every key ever issued still answers its reason) - C31's "answers kept, with the recorded rate and reason".
+import extstages  # noqa: E402
+PROP["stages"] += extstages.pick("CX2", ["KeptReasons"])
